@@ -208,8 +208,14 @@ def cfg_cglue(features=None, tests=False):
     return run_config(name, REPO, args, ["cglue"])
 
 
-def cfg_gen():
-    return run_config("cglue-gen", REPO, ["check", "-p", "cglue-gen", "-p", "cglue-macro"], ["cglue_gen", "cglue_macro"])
+def cfg_gen(features=None):
+    args = ["check", "-p", "cglue-gen", "-p", "cglue-macro"]
+    name = "cglue-gen"
+    if features:
+        # per-package feature names, e.g. "cglue-gen/layout_checks,cglue-macro/layout_checks"
+        args += ["--features", features]
+        name += "+" + features
+    return run_config(name, REPO, args, ["cglue_gen", "cglue_macro"])
 
 
 def cfg_bindgen():
